@@ -31,6 +31,8 @@ ALPH4 = [1.0, -1.0, 0.3, -0.3]
 ALPH6 = ALPH4 + [1e-3, -1e-3]
 ALPH9 = ALPH6 + [0.0, 1e-9, -1e-9]
 ALPH7 = ALPH6 + [0.0]
+ALPHU = [1.0, -1.0, 1e-170, -1e-170, 1e-3, -1e-3]  # products of two ordinates underflow, interpolation ratios overflow
+ALPHT = [1.0, -1.0, 1e-20, -1e-20, 1e-3, -1e-3]  # ordinates more than 16 orders of magnitude apart: interpolation steps vanish in floating point
 ALPH5 = ALPH4 + [0.0]
 
 
@@ -47,6 +49,12 @@ def _tree_cases(tier):
             ((0.0, 1e-3), 1e-3 / 8, ALPH4, 40),
             ((0.0, 1.0), 1e-3, ALPH4, 7),
         ]
+        for br in ((5.0, 25.0), (-3.0, 4.0)):
+            for eps in (1.0, 1e-6):
+                for fs, fe in ((1.0, -1.0), (1e-20, -1.0), (-1.0, 1e-20), (-1e-20, 1e-3)):
+                    yield {"family": "tree", "bracket": list(br), "tol": 1.0, "eps": eps, "f_start": fs, "f_end": fe, "alphabet": ALPHT, "depth_cap": 60}
+                for fs, fe in ((1.0, -1.0), (1e-170, -1.0), (-1.0, 1e-170), (-1e-170, 1e-3)):
+                    yield {"family": "tree", "bracket": list(br), "tol": 1.0, "eps": eps, "f_start": fs, "f_end": fe, "alphabet": ALPHU, "depth_cap": 60}
         epss = [1.0, 1e-6]
     else:
         # sized from measured tree sizes: with a small epsilon interpolation steps are accepted more often and the trees get deep
@@ -69,6 +77,12 @@ def _tree_cases(tier):
             ((0.0, 16.0), 1e-3, ALPH4, 10, EA),
         ]
         ends = ends + [(1e-9, -1.0), (-1.0, 1e-9)]
+        for br in ((5.0, 25.0), (-3.0, 4.0), (0.0, 16.0), (100.0, 116.0)):
+            for eps in EA:
+                for fs, fe in ((1.0, -1.0), (1e-20, -1.0), (-1.0, 1e-20), (-1e-20, 1e-3), (1e-3, -1e-20)):
+                    yield {"family": "tree", "bracket": list(br), "tol": 1.0, "eps": eps, "f_start": fs, "f_end": fe, "alphabet": ALPHT, "depth_cap": 60}
+                for fs, fe in ((1.0, -1.0), (1e-170, -1.0), (-1.0, 1e-170), (-1e-170, 1e-3), (1e-3, -1e-170)):
+                    yield {"family": "tree", "bracket": list(br), "tol": 1.0, "eps": eps, "f_start": fs, "f_end": fe, "alphabet": ALPHU, "depth_cap": 60}
         for (br, tol, alph, cap, epss), (fs, fe) in itertools.product(plan, ends):
             for eps in epss:
                 yield {"family": "tree", "bracket": list(br), "tol": tol, "eps": eps, "f_start": fs, "f_end": fe, "alphabet": alph, "depth_cap": cap}
@@ -79,12 +93,75 @@ def _tree_cases(tier):
 
 FUNCS = {
     "linear": lambda x, a, b: x - (a + 0.37 * (b - a)),
+    # ordinates spanning more than 16 orders of magnitude across the bracket: interpolation steps from b vanish in floating point
+    "x21": lambda x, a, b: (((x - a) / (b - a) - 0.001) * 10) ** 21,
+    "exp40": lambda x, a, b: math.exp(40 * ((x - a) / (b - a) * 2.5 - 1)) - 1.0000001,
+    "tinyplateau": lambda x, a, b: -1e-20 if x < a + 0.6 * (b - a) else 1.0,
     "cubic": lambda x, a, b: (x - (a + 0.61 * (b - a))) ** 3,
     "x9": lambda x, a, b: ((x - (a + 0.5 * (b - a))) / (b - a)) ** 9 - 1e-12,
     "exp": lambda x, a, b: math.exp(-(x - a) / (b - a) * 3) - 0.4,
     "flipdisc": lambda x, a, b: (1.0 if x < a + 0.7 * (b - a) else -0.2) * (1 + 0.5 * math.sin(40 * x)),
     "plateau": lambda x, a, b: 0.0 if a + 0.4 * (b - a) <= x <= a + 0.6 * (b - a) else (1.0 if x < a + 0.5 * (b - a) else -1.0),
 }
+
+
+SCALE = [1.0, 0.6, 0.36, 0.22, 0.13, 0.078, 0.047, 0.01]  # graded magnitudes (ratio 0.6, plus a small one): ratios between ordinates decide the interpolation
+DENSE = [s * m for m in SCALE for s in (1.0, -1.0)]
+
+
+def _prefix_cases(tier):
+    """Deviation-bounded: the first K answers range over the dense alphabet, afterwards the environment is a fixed step function."""
+    brackets = [(-1.0, 2.0), (0.0, 10.0), (5.0, 25.0)]
+    for br in brackets:
+        for eps in (1e-6,) if tier == "quick" else (1e-6, 1e-3, 1.0):
+            for ms in SCALE[:6]:
+                for me in SCALE[:6]:
+                    for sgn in (1.0, -1.0):
+                        yield {"family": "prefix", "bracket": list(br), "tol": 1e-3, "eps": eps, "f_start": sgn * ms, "f_end": -sgn * me, "K": 2 if tier == "quick" else 3}
+
+
+def _run_prefix(case):
+    from emu_base.math.brents_root_finding import BrentsRootFinder
+
+    lo, hi = case["bracket"]
+    tol, eps, K = case["tol"], case["eps"], case["K"]
+    runs = steps = 0
+    horizon = 4 * (math.ceil(math.log2((hi - lo) / tol)) + 2) + 10 + K
+    for pre in itertools.product(DENSE, repeat=K):
+        for frac in (0.1, 0.5, 0.9):
+            rf = BrentsRootFinder(start=lo, end=hi, f_start=case["f_start"], f_end=case["f_end"], epsilon=eps)
+            k = 0
+            step_fn = None
+            n = 0
+            while not rf.is_converged(tol):
+                prev = (rf.a, rf.fa, rf.b, rf.fb)
+                x = rf.get_next_abscissa()
+                if x == prev[0]:
+                    y = prev[1]
+                elif x == prev[2]:
+                    y = prev[3]
+                elif k < K:
+                    y = pre[k]
+                else:
+                    if step_fn is None:
+                        # a step function on the bracket as it is when the free answers end: sign of f(a) up to a point inside, sign of f(b) beyond
+                        r0 = prev[0] + frac * (prev[2] - prev[0])
+                        sa, sb = math.copysign(0.2, prev[1]), math.copysign(0.15, prev[3])
+                        step_fn = lambda t, r0=r0, a0=prev[0], sa=sa, sb=sb: sa if (t - r0) * (a0 - r0) > 0 else sb  # noqa: E731
+                    y = step_fn(x)
+                k += 1
+                rf.provide_ordinate(x, y)
+                n += 1
+                err = _check_step(rf, lo, hi, x, y, prev)
+                if err:
+                    return None, f"{err}; free answers {list(pre[:k])}, then a step function at fraction {frac} of the bracket"
+                if n > horizon:
+                    return None, f"no convergence within {horizon} evaluations (ranking bound); free answers {list(pre)}, step function at fraction {frac}"
+            if not (rf.fa * rf.fb <= 0 and lo <= rf.current_guess <= hi and rf.current_guess == rf.b):
+                return None, f"converged without a bracketed sign change: a={rf.a} b={rf.b}; free answers {list(pre)}"
+            runs += 1
+            steps += n
+    return (runs, steps), None
 
 
 def _func_cases(tier):
@@ -104,7 +181,8 @@ def _func_cases(tier):
 def bounds(tier, seed):
     return {
         "tree_cases": len(list(_tree_cases(tier))),
-        "ordinate_alphabets": {"ALPH4": ALPH4, "ALPH6": ALPH6, "ALPH9": ALPH9, "ALPH7": ALPH7, "ALPH5": ALPH5},
+        "dense_prefix": {"free_answers": "2 (quick) / 3 (thorough) over " + str(len(DENSE)) + " graded ordinates, then a step function at 3 positions", "end_ordinates": "6 x 6 magnitudes x 2 signs", "brackets": [[-1, 2], [0, 10], [5, 25]]},
+        "ordinate_alphabets": {"ALPHT": ALPHT, "ALPHU": ALPHU, "ALPH4": ALPH4, "ALPH6": ALPH6, "ALPH9": ALPH9, "ALPH7": ALPH7, "ALPH5": ALPH5},
         "functions": list(FUNCS) + ["step at every 1/8 grid point (both directions)"],
         "strategies": ["same_as_a", "alternate", "keep_large", "creep_tiny", "creep_to_a"],
         "strategy_horizon": 5000,
@@ -113,6 +191,7 @@ def bounds(tier, seed):
 
 def cases(tier, seed):
     yield from _tree_cases(tier)
+    yield from _prefix_cases(tier)
     yield from _func_cases(tier)
 
 
@@ -184,7 +263,9 @@ def _run_tree(case):
             continue
         prev = (rf.a, rf.fa, rf.b, rf.fb)
         x = rf.get_next_abscissa()  # rf is not used again: it becomes the probe
-        for y in alph:
+        # the environment is a FUNCTION: at an abscissa it already answered (a vanishing step re-queries b) only the recorded ordinate is legal
+        forced = prev[1] if x == prev[0] else (prev[3] if x == prev[2] else None)
+        for y in alph if forced is None else [forced]:
             child = copy.copy(rf)
             child.provide_ordinate(x, y)
             transitions += 1
@@ -264,6 +345,11 @@ def _run_case(case):
             return result(False, sig=f"tree|eps{case['eps']}", msg=f"{err} (bracket {case['bracket']}, tol {case['tol']}, ends {case['f_start']},{case['f_end']})", outcome="viol")
         states, transitions, leaves, capped, maxdepth, merged = stats
         return result(True, outcome=[states, leaves, capped, maxdepth], states=states, transitions=transitions, extra={"capped_paths": capped, "merged": merged})
+    if fam == "prefix":
+        stats, err = _run_prefix(case)
+        if err:
+            return result(False, sig=f"prefix|eps{case['eps']}", msg=f"{err} (bracket {case['bracket']}, tol {case['tol']}, ends {case['f_start']},{case['f_end']})", outcome="viol")
+        return result(True, outcome=["prefix", stats[0], stats[1]], states=stats[0], transitions=stats[1])
     if fam == "func":
         name = case["func"]
         if name == "steps":
@@ -297,7 +383,7 @@ def _run_case(case):
                     ok = True
                 continue
             cur = f(x0)
-            if cur == 0 or prev * cur < 0:
+            if cur == 0 or (prev < 0) != (cur < 0):  # compare signs, not the product (which underflows for x**21 near its root)
                 ok = True
                 break
             prev = cur
